@@ -514,6 +514,8 @@ fn skip_return(core: &Core) -> bool {
         core,
         Core::Return { .. }
             | Core::Raise { .. }
+            | Core::VarDef { .. }
+            | Core::Assign { .. }
             | Core::While { .. }
             | Core::For { .. }
             | Core::If { .. }
